@@ -211,6 +211,11 @@ func c14Worker(c *core.Collector, x *Ctx) {
 		if r.Chance(1, 6) {
 			N = 255
 		}
+		if i < 12 {
+			// the re-request's count field is one byte: transfers whose missing set has 254, 255 and 256 members (N = 255, 256, 257
+			// with only packet 1 held), and 255 missing out of more
+			N = []int{255, 256, 257, 256, 300, 511}[i%6]
+		}
 		bodies := c05Bodies(r, N, r.Intn(2))
 		b := &builder{}
 		id := uint16(0x0801)
@@ -218,11 +223,17 @@ func c14Worker(c *core.Collector, x *Ctx) {
 		feed(b, hookFrame(false, id, first, true, uint16(N), 1, bodies[0]))
 		var missing []int
 		mode := r.Intn(4)
+		if i < 12 {
+			mode = 0
+		}
 		for k := 2; k <= N; k++ {
 			miss := false
 			switch mode {
 			case 0:
 				miss = true // all but the first
+				if i < 12 && N >= 300 {
+					miss = k <= 256 // exactly 255 missing, the rest held
+				}
 			case 1:
 				miss = k == N // only the last
 			case 2:
